@@ -137,6 +137,169 @@ type Normaliser struct {
 	SortTyp *types.Named
 }
 
+// normShape describes a function that sorts one of its slice parameters and returns it deduplicated.
+type normShape struct {
+	DirParam   int // index of the sort.Interface parameter that carries the ordering, -1 when the ordering is fixed
+	Dir        int // +1 ascending Pos(), -1 descending (when fixed)
+	SliceParam int
+	SortTyp    *types.Named
+	Dedupe     *ssa.Function
+	Err        string
+}
+
+var normShapeCache = map[*ssa.Function]*normShape{}
+
+// normShape analyses fn: (A) sort.Sort(T(p)) with a named sort type T over parameter p, every return is dedupe(..p..)
+// after the sort; (B) sort.Sort(order) with `order` a sort.Interface parameter, every return dedupe(..p..); (C) every
+// return is a call of a function of shape A/B with fn's parameter (and, for B, T(p)) handed on.
+func (w *World) normShape(fn *ssa.Function, depth int) *normShape {
+	if sh, ok := normShapeCache[fn]; ok {
+		return sh
+	}
+	normShapeCache[fn] = nil
+	if depth > 3 || len(fn.Blocks) == 0 || fn.Signature.Results().Len() != 1 {
+		return nil
+	}
+	paramIdx := func(v ssa.Value) int {
+		v = stripConv(v)
+		for i, p := range fn.Params {
+			if ssa.Value(p) == v {
+				return i
+			}
+		}
+		return -1
+	}
+	// the dedupe chain: calls of one-argument functions of the package around a parameter
+	var chain func(v ssa.Value) (int, *ssa.Function)
+	chain = func(v ssa.Value) (int, *ssa.Function) {
+		c, ok := stripConv(v).(*ssa.Call)
+		if !ok {
+			return -1, nil
+		}
+		sc := staticCallee(c)
+		if sc == nil || fnPkgKey(sc) != "exec" || len(c.Call.Args) != 1 {
+			return -1, nil
+		}
+		if k := paramIdx(c.Call.Args[0]); k >= 0 {
+			return k, sc
+		}
+		if k, inner := chain(c.Call.Args[0]); k >= 0 {
+			return k, inner
+		}
+		return -1, nil
+	}
+	var rets []*ssa.Return
+	var sorts []*ssa.Call
+	allInstrs(fn, func(in ssa.Instruction) {
+		switch x := in.(type) {
+		case *ssa.Return:
+			rets = append(rets, x)
+		case *ssa.Call:
+			if sc := staticCallee(x); sc != nil && funcFullName(sc) == "sort.Sort" && len(x.Call.Args) == 1 {
+				sorts = append(sorts, x)
+			}
+		}
+	})
+	if len(rets) == 0 {
+		return nil
+	}
+	if len(sorts) == 1 {
+		sc := sorts[0]
+		sh := &normShape{DirParam: -1, SliceParam: -1}
+		arg := sc.Call.Args[0]
+		if mi, ok := arg.(*ssa.MakeInterface); ok {
+			st, isNamed := mi.X.Type().(*types.Named)
+			k := paramIdx(mi.X)
+			if !isNamed || k < 0 {
+				return nil
+			}
+			dir, derr := w.lessDirection(st)
+			if derr != "" {
+				sh.Err = "sort type " + st.Obj().Name() + ": " + derr
+				normShapeCache[fn] = sh
+				return sh
+			}
+			sh.Dir, sh.SortTyp, sh.SliceParam = dir, st, k
+		} else if k := paramIdx(arg); k >= 0 {
+			if _, isIface := fn.Params[k].Type().Underlying().(*types.Interface); !isIface {
+				return nil
+			}
+			sh.DirParam = k
+		} else {
+			return nil
+		}
+		for _, ret := range rets {
+			k, d := chain(ret.Results[0])
+			if k < 0 || d == nil {
+				return nil
+			}
+			if sh.SliceParam >= 0 && k != sh.SliceParam {
+				return nil
+			}
+			sh.SliceParam = k
+			// the sort comes first
+			dc := stripConv(ret.Results[0]).(*ssa.Call)
+			if !(sc.Block() == dc.Block() && instrIndex(sc) < instrIndex(dc)) && !(sc.Block() != dc.Block() && sc.Block().Dominates(dc.Block())) {
+				// the innermost call may sit in another block: accept domination of the return
+				if !sc.Block().Dominates(ret.Block()) {
+					return nil
+				}
+			}
+			sh.Dedupe = d
+		}
+		normShapeCache[fn] = sh
+		return sh
+	}
+	if len(sorts) == 0 {
+		// wrapper: every return hands the parameter to a function of known shape
+		var sh *normShape
+		for _, ret := range rets {
+			c, ok := stripConv(ret.Results[0]).(*ssa.Call)
+			if !ok {
+				return nil
+			}
+			g := staticCallee(c)
+			if g == nil || fnPkgKey(g) != "exec" || g == fn {
+				return nil
+			}
+			gs := w.normShape(g, depth+1)
+			if gs == nil || gs.Err != "" || gs.SliceParam >= len(c.Call.Args) {
+				return nil
+			}
+			k := paramIdx(c.Call.Args[gs.SliceParam])
+			if k < 0 {
+				return nil
+			}
+			cur := &normShape{DirParam: -1, Dir: gs.Dir, SliceParam: k, SortTyp: gs.SortTyp, Dedupe: gs.Dedupe}
+			if gs.DirParam >= 0 {
+				if gs.DirParam >= len(c.Call.Args) {
+					return nil
+				}
+				mi, ok := c.Call.Args[gs.DirParam].(*ssa.MakeInterface)
+				if !ok {
+					return nil
+				}
+				st, isNamed := mi.X.Type().(*types.Named)
+				if !isNamed || paramIdx(mi.X) != k {
+					return nil
+				}
+				dir, derr := w.lessDirection(st)
+				if derr != "" {
+					return nil
+				}
+				cur.Dir, cur.SortTyp = dir, st
+			}
+			if sh != nil && (sh.Dir != cur.Dir || sh.SliceParam != cur.SliceParam) {
+				return nil
+			}
+			sh = cur
+		}
+		normShapeCache[fn] = sh
+		return sh
+	}
+	return nil
+}
+
 type ExecFacts struct {
 	Axis        *AxisTable
 	Normalisers map[*ssa.Function]*Normaliser
@@ -154,75 +317,27 @@ func (w *World) ExecFacts() *ExecFacts {
 	execFactsCache = ef
 	f := w.Facts()
 	r := w.Roles()
-	// normalisers: functions of exec that call sort.Sort on (a conversion of) their parameter
+	// normalisers: functions of exec that sort (a conversion of) a slice parameter with a sort type of known direction
+	// and return it through the dedupe, directly or through a shared helper that receives the ordering as a value
 	p := w.SSA["exec"]
-	for _, m := range p.Members {
-		fn, ok := m.(*ssa.Function)
-		if !ok || len(fn.Params) != 1 {
-			continue
-		}
-		var sortCall *ssa.Call
-		allInstrs(fn, func(in ssa.Instruction) {
-			c, ok := in.(*ssa.Call)
-			if !ok {
-				return
-			}
-			if sc := staticCallee(c); sc != nil && funcFullName(sc) == "sort.Sort" && len(c.Call.Args) == 1 {
-				if stripConv(c.Call.Args[0]) == ssa.Value(fn.Params[0]) {
-					sortCall = c
-				}
-			}
-		})
-		if sortCall == nil {
-			continue
-		}
-		mi, ok := sortCall.Call.Args[0].(*ssa.MakeInterface)
+	var names []string
+	for name := range p.Members {
+		names = append(names, name)
+	}
+	sort.Strings(names)
+	for _, name := range names {
+		fn, ok := p.Members[name].(*ssa.Function)
 		if !ok {
 			continue
 		}
-		st, ok := mi.X.Type().(*types.Named)
-		if !ok {
+		sh := w.normShape(fn, 0)
+		if sh == nil || sh.DirParam >= 0 || sh.Err != "" {
+			if sh != nil && sh.Err != "" {
+				ef.err = append(ef.err, sh.Err)
+			}
 			continue
 		}
-		dir, derr := w.lessDirection(st)
-		if derr != "" {
-			ef.err = append(ef.err, "sort type "+st.Obj().Name()+": "+derr)
-			continue
-		}
-		n := &Normaliser{Fn: fn, Forward: dir > 0, SortTyp: st}
-		// every return value is the result of a call (dedupe) applied to the parameter, after the sort
-		okAll := true
-		nret := 0
-		allInstrs(fn, func(in ssa.Instruction) {
-			ret, ok := in.(*ssa.Return)
-			if !ok {
-				return
-			}
-			nret++
-			if len(ret.Results) != 1 {
-				okAll = false
-				return
-			}
-			c, ok := stripConv(ret.Results[0]).(*ssa.Call)
-			if !ok {
-				okAll = false
-				return
-			}
-			sc := staticCallee(c)
-			if sc == nil || len(c.Call.Args) != 1 || stripConv(c.Call.Args[0]) != ssa.Value(fn.Params[0]) {
-				okAll = false
-				return
-			}
-			// sort must dominate the dedupe call
-			if !(sortCall.Block() == c.Block() && instrIndex(sortCall) < instrIndex(c)) && !(sortCall.Block() != c.Block() && sortCall.Block().Dominates(c.Block())) {
-				okAll = false
-				return
-			}
-			n.Dedupe = sc
-		})
-		if okAll && nret > 0 && n.Dedupe != nil {
-			ef.Normalisers[fn] = n
-		}
+		ef.Normalisers[fn] = &Normaliser{Fn: fn, Forward: sh.Dir > 0, SortTyp: sh.SortTyp, Dedupe: sh.Dedupe}
 	}
 	// axis dispatch
 	if h := f.Handlers["AxisName"]; h != nil {
